@@ -244,6 +244,7 @@ func (e *Exec) resetPath(it workItem) {
 	e.staleObjs = 0
 	e.ts = nil
 	e.analyzers = nil
+	e.lastAnalyzer = nil
 	e.merge = nil
 	e.in = newInterner()
 	e.depth = 0
